@@ -41,6 +41,7 @@ def run (args : List String) : String :=
     let a : Names.Actions := { methods := namesOf m, signals := namesOf sg, props := namesOf p }
     if (Names.clashes a).isEmpty then "ok" else "clash"
   | "gen.pkg" :: _ => "ok"
+  | "gen.objects" :: _ => "ok"   -- object references are not modelled: decided by the scenario's oracle alone
   | "gen.pkgx" :: _ => "known-weakness"
   | "gen.call" :: _ :: _ :: retH :: parH :: toks =>
     match sigOfHex parH with
